@@ -2,10 +2,10 @@ package load
 
 import (
 	"fmt"
-	"os"
 	"go/ast"
 	"go/token"
 	"go/types"
+	"os"
 	"sort"
 	"strings"
 
@@ -592,7 +592,6 @@ func sroaFunc(p *packages.Package, f *ast.File, fd *ast.FuncDecl, isNewStruct fu
 	}
 	return edits, imps, notes
 }
-
 
 func sroaDebug(msg string) {
 	if os.Getenv("VCHECK_DEBUG_SROA") != "" {
